@@ -1,7 +1,7 @@
 (* Extraction of the executable model and oracles.  ExtrOcamlBasic only: numbers stay
    the extracted inductives (positive / N / Z / nat). *)
 From Coq Require Import ExtrOcamlBasic ZArith.
-From ZV Require Import Str Dec Rx RegexSrc Sanitize SanitizeSpec SemVer Pep440 Calendar Timestamp.
+From ZV Require Import Str Dec Rx RegexSrc Sanitize SanitizeSpec SemVer Pep440 Calendar Timestamp Zerv Render.
 Extraction Language OCaml.
 Extraction "Extract/model.ml"
   N.div N.modulo N.add N.mul Z.add
@@ -16,4 +16,5 @@ Extraction "Extract/model.ml"
   RegexSrc.pep440_src RegexSrc.pep440_spec RegexSrc.pep440_atom_of
   Pep440.pep_parse Pep440.pep_extract Pep440.pep_print Pep440.pep_cmp Pep440.pep_eqb Pep440.pep_check
   Pep440.pep_caps
-  Timestamp.resolve_timestamp Timestamp.is_valid_timestamp_pattern Calendar.dt_of_secs Timestamp.u64_as_i64.
+  Timestamp.resolve_timestamp Timestamp.is_valid_timestamp_pattern Calendar.dt_of_secs Timestamp.u64_as_i64
+  Zerv.schema_validate Zerv.default_prec Zerv.comp_value Zerv.comp_expanded Render.semver_of_zerv Render.pep_of_zerv Render.schema_with_zerv Render.fixed_schema.
